@@ -14,11 +14,13 @@ BUILD_TARGETS = ["DfolsVerif.Driver.ModelDrv"]   # what lean/Main.lean imports
 def pre_build(ctx):
     import gen_kernels
     ctx.cov["translated_model_decisions"] = gen_kernels.regenerate_model(ctx)
+    import gen_hcalls
+    ctx.cov["regulariser_calls_in_repo"] = gen_hcalls.regenerate(ctx)
 
 
 THEOREMS = [
     "Dfols.C17.gen_changePoint_decision", "Dfols.C17.gen_addPoint_decision", "Dfols.C17.gen_savePoint_decision",
-    "Dfols.C17.gen_getFinal_decision",
+    "Dfols.C17.gen_getFinal_decision", "Dfols.C17.C17_src_h_at_stored_point",
     "Dfols.C17.C17_labels_counts_means",
     "Dfols.C17.C17_mean_is_arithmetic_mean",
     "Dfols.C17.C17_obj_matches",
